@@ -25,6 +25,7 @@ func devMain(args []string) int {
 		inv := fs.Int("inv", 2, "")
 		faults := fs.Int("faults", 1, "")
 		show := fs.Int("show", 5, "")
+		noview := fs.Bool("noview", false, "")
 		fs.Parse(args[1:])
 		ft, ok := fam.Presets[*feat]
 		if !ok && *feat != "lib" && *feat != "chain" && *feat != "shadow" && *feat != "groups" && *feat != "keys" && *feat != "softnest" && *feat != "reenter" && *feat != "libgroups" {
@@ -52,7 +53,7 @@ func devMain(args []string) int {
 		if *feat == "lib" {
 			cats = fam.LibFamily(*seed, *n, []cat.Opts{{Recover: true}, {Recover: false}}, true)
 		}
-		st, err := coverStage(*feat, cats, Bounds{MaxInv: *inv, MaxFaults: *faults, FaultKinds: []string{"err", "panic"}}, 10*time.Minute, *show, os.Getenv("VERIF_COVERAGE") != "")
+		st, err := coverStage(*feat, cats, Bounds{MaxInv: *inv, MaxFaults: *faults, FaultKinds: []string{"err", "panic"}, NoView: *noview}, 10*time.Minute, *show, os.Getenv("VERIF_COVERAGE") != "")
 		if st != nil {
 			fmt.Println(st.summary())
 			if st.TLC.Coverage != nil {
